@@ -534,6 +534,19 @@ def stability (t : Step) : Viol :=
       | .bind svc p _ _ _ _ => chk (!(t.ok && (Map.get t.pre.bindings (svc, p)).isSome)) "second binding for the same service and provider accepted"
       | _ => [])
 
+/-- decidable reading of `SameRecords` (Proofs/RestartStable.lean: `restart_sameRecords`): what a zero-height restart
+    must give back, as lookups — evaluated on the implementation's states before and after a `restart` op; the
+    violations are attributed to the monitors `stability` (definitions, bindings, owners) and `withdrawLaw` -/
+def restartKeeps (pre post : State) : List (String × String) :=
+  (pre.defs.flatMap (fun p => chk (Map.get post.defs p.1 == some p.2) s!"definition {p.1} changed or disappeared at a restart")
+   ++ post.defs.flatMap (fun p => chk ((Map.get pre.defs p.1).isSome) s!"definition {p.1} appeared at a restart")
+   ++ pre.bindings.flatMap (fun p => chk (decide (Map.get post.bindings p.1 = some p.2)) s!"binding {p.1.1}/{p.1.2} changed or disappeared at a restart")
+   ++ post.bindings.flatMap (fun p => chk ((Map.get pre.bindings p.1).isSome) s!"binding {p.1.1}/{p.1.2} appeared at a restart")
+   ++ pre.owner.flatMap (fun p => chk (Map.get post.owner p.1 == some p.2) s!"provider {p.1} changed or lost its owner at a restart")
+   ++ post.owner.flatMap (fun p => chk ((Map.get pre.owner p.1).isSome) s!"provider {p.1} got an owner at a restart")).map (fun v => ("stability", v))
+  ++ (pre.withdraw.flatMap (fun p => chk (Map.get post.withdraw p.1 == some p.2) s!"withdrawal address of {p.1} changed or disappeared at a restart")
+   ++ post.withdraw.flatMap (fun p => chk ((Map.get pre.withdraw p.1).isSome) s!"withdrawal address of {p.1} appeared at a restart")).map (fun v => ("withdrawLaw", v))
+
 /-- C20: no panic -/
 def noPanic (t : Step) : Viol :=
   match t.res with
